@@ -32,6 +32,13 @@ def _cfgs(tier):
 
 def tasks(tier, seed):
     ts = []
+    # SOO with a depth cap that binds: explored up to the round before the cap saturates (afterwards SOO.pull
+    # never returns: the statement presupposes a cap large enough for the horizon)
+    for hm, T in ((2, 7), (3, 13)):
+        for part, K, box in (("Binary", None, "u1"), ("Kary", 3, "u1")):
+            cfg = configs.cfg("SOO", part, K, configs.BOXES[box], n=100, h_max=hm)
+            ts.append({"kind": "algo", "label": "full/SOOcap%d/%s" % (hm, part), "cfg": cfg, "mode": "full", "T": T if part == "Binary" else min(T, 9),
+                       "R": list(configs.R2) if T > 9 else list(configs.R3), "cost": 4})
     for i, cfg in enumerate(_cfgs(tier)):
         lab = "%s/%s%s/%dd/%d" % (cfg["algo"], cfg["part"], cfg["K"] or "", len(cfg["domain"]), i)
         d2 = (cfg["part"] == "Binary" and len(cfg["domain"]) == 2) or "Random" in cfg["part"]
